@@ -59,6 +59,8 @@ def eval_items(items):
                 for method in TH.METHODS:
                     for r in TARGETS:
                         case = dict(base, method=method, r=r)
+                        if pos and isinstance(pos[0], int) or neg and isinstance(neg[0], int):
+                            case["int"] = True
                         res = oracle(case)
                         counts["extreme"][0] += 1
                         counts["extreme"][1] += 1
@@ -100,6 +102,9 @@ def bounded(chk):
                 continue
             for ep, en in easy:
                 items.append(([v + sh for v in pos], [v + sh for v in neg], ep, en))
+            if len(pos) + len(neg) <= 3:
+                # integer-dtype score arrays (the sentinels must still be floats one ulp outside the range)
+                items.append(([int(v + sh) for v in pos], [int(v + sh) for v in neg], 0, 0))
     run_bounded(chk, items, eval_items)
     # float sweep of the easy-sample rescaling at the exact end targets (the proof layer is exact-real and cannot see rounding)
     nmax, emax = (8, 32) if chk.tier == "quick" else (16, 64)
